@@ -15,7 +15,7 @@ ASSUMPTIONS = ['pgv.refspline', 'numpy dense solve and Gauss-Legendre nodes', 'r
                'non-uniform radial breakpoints are outside the quantifier (DESIGN.md note A)']
 
 MENUS = ['default', 'laplace', 'qn', 'poly']
-NEUM = [([], []), ([0], []), ([], [0]), ([0, 1, -1], []), ([0], [1, -1])]
+NEUM = [([], []), ([0], []), ([], [0]), ([0, 1, -1], []), ([0], [1, -1]), ([1], [-1]), ([0, -1], [1])]      # the last two treat +m and -m differently
 
 
 def cases(tier, seed):
